@@ -111,6 +111,9 @@ def check_protein(case):
             if full and abs(obj.charge) > 1e-3:
                 res.bad("C02:water-charge", f"water carries {obj.charge:+.4f} e in {ff}")
             continue
+        if g[0] == "na":
+            all_full = False  # (strand totals are checked by check_na on the same descriptor)
+            continue
         ci, i = g[1], g[2]
         seq = desc["chains"][ci]["seq"]
         rn = seq[i]
@@ -192,15 +195,7 @@ def blank_cases():
 # ------------------------------------------------------------------ nucleic acids
 @st.composite
 def na_case(draw):
-    strands = []
-    for k in range(draw(st.integers(1, 2))):
-        dna = draw(st.booleans())
-        n = draw(st.integers(2, 6))
-        seq = "".join(draw(st.lists(st.sampled_from("ACGT" if dna else "ACGU"), min_size=n, max_size=n)))
-        strands.append(dict(id="NM"[k], dna=dna, seq=seq, p5=draw(st.booleans()), newnames=draw(st.booleans()),
-                            style=draw(st.sampled_from(["bare", "R"])), start=draw(st.sampled_from([1, 10, 101])),
-                            stars=draw(st.sampled_from([0, 0, 1, 2])), shuffle=draw(st.sampled_from([0, 0, 7, 19, 402])),
-                            jitter=draw(st.sampled_from([0.0, 0.0, 0.03])), q=draw(strat.quat())))  # fmt: skip
+    strands = draw(e2e.strands())
     any_dna = any(x["dna"] for x in strands)
     ffs = ["AMBER", "CHARMM", "TYL06"] + ([] if any_dna else ["PARSE"])
     return dict(part="na", desc=dict(chains=[], na=strands), ff=draw(st.sampled_from(ffs)),
@@ -217,8 +212,11 @@ def check_na(case):
     if not r.ok:
         res.label("run-failed")
         return res
-    if r.missing:
-        names = sorted({f"{a.residue.name}:{a.name}" for a in r.missing})
+    from pdb2pqr import na as _na
+
+    na_missing = [a for a in (r.missing or []) if isinstance(a.residue, _na.Nucleic)]
+    if na_missing:
+        names = sorted({f"{a.residue.name}:{a.name}" for a in na_missing})
         res.bad("C02:na:unassigned", f"{ff}: strand atoms without parameters {names[:6]}")
         return res
     A = e2e.analyse(desc, ff, opts, s, r)
@@ -234,6 +232,34 @@ def check_na(case):
             if abs(tot + meta["phosphates"]) > 2e-3:
                 res.bad("C02:na:strand-charge", f"{ff} {'DNA' if meta['dna'] else 'RNA'} {''.join(meta['seq'])} "
                         f"(5' phosphate in input: {meta['p5']}): charge {tot:+.4f}, expected {-meta['phosphates']:+d}")  # fmt: skip
+    res.nontrivial = True
+    return res
+
+
+# ------------------------------------------------------------------ beyond the usual size / content envelope
+@st.composite
+def big_case(draw):
+    desc = draw(e2e.big_structure(icodes=True))
+    ff = e2e.big_ff(draw, desc)
+    opts = []
+    if ff == "PARSE":
+        for o in ("--neutraln", "--neutralc"):
+            if draw(st.integers(0, 2)) == 0:
+                opts.append(o)
+    for o in ("--noopt", "--nodebump", "--keep-chain"):
+        if draw(st.integers(0, 4)) == 0:
+            opts.append(o)
+    return dict(part="big", desc=desc, ff=ff, opts=opts, hidden=False, blank=None)
+
+
+def check_big(case):
+    """Protein chains and strands in one file, 4-30 chains, one long chain: the per-residue rule of
+    `protein` and the per-strand rule of `na` on the same run."""
+    res = check_protein(case)
+    res.label(f"big={case['desc'].get('big')}", f"chains={len(case['desc']['chains'])}")
+    if case["desc"].get("na"):
+        r2 = check_na(case)
+        res.violations += r2.violations
     res.nontrivial = True
     return res
 
@@ -338,6 +364,7 @@ def parts(tier):
         Part("table", check_protein, cases=table_cases, exhaustive=True),
         Part("blank-table", check_protein, cases=blank_cases, exhaustive=True),
         Part("na", check_na, strategy=na_case(), budget=dict(quick=160, thorough=3000)),
+        Part("big", check_big, strategy=big_case(), budget=dict(quick=128, thorough=2000)),
         Part("cyclic", check_cyclic, strategy=cyclic_case(), budget=dict(quick=64, thorough=1200)),
     ]
 
